@@ -153,10 +153,28 @@ pub fn check_levels(b: &Built, raw: &[HashSet<N>], levels: &[Vec<Vec<usize>>], w
     if !b.kind.multi {
         let (rn, rd) = res_q(res);
         let singles: Vec<usize> = (0..b.n).map(|v| 1usize << v).collect();
-        let mut prev = modularity_oracle(b, &singles, weighted, rn, rd);
+        // weights that are not whole multiples of one unit (the near-equal alphabets): f64 oracle, wider tolerance
+        let unit = b.edges.iter().map(|e| e.2.abs()).filter(|x| *x > 0.0 && x.is_finite()).fold(f64::INFINITY, f64::min);
+        let inexact = weighted && b.edges.iter().any(|e| !e.2.is_nan() && (e.2 / unit).fract() != 0.0);
+        let oracle = |masks: &[usize]| -> f64 {
+            if !inexact {
+                return modularity_oracle(b, masks, weighted, rn, rd);
+            }
+            let mut comm_of = vec![0usize; b.n];
+            for (ci, m) in masks.iter().enumerate() {
+                for v in 0..b.n {
+                    if m >> v & 1 == 1 {
+                        comm_of[v] = ci;
+                    }
+                }
+            }
+            newman_q(&b.edges, b.kind.directed, &comm_of, masks.len(), true, rn as f64 / rd as f64)
+        };
+        let tol = if inexact { 1e-9 } else { 1e-12 };
+        let mut prev = oracle(&singles);
         for (i, masks) in masks_per_level.iter().enumerate() {
-            let q = modularity_oracle(b, masks, weighted, rn, rd);
-            if q < prev - 1e-12 {
+            let q = oracle(masks);
+            if q < prev - tol {
                 fail("modularity_monotone", format!("modularity decreases at level {i}: {q} after {prev} ({}); levels {:?}", if i == 0 { "all singletons" } else { "previous level" }, levels));
                 return;
             }
@@ -303,6 +321,15 @@ pub fn c13_families(tier: &str) -> Vec<Family> {
         f.min_edges = 1;
         v.push(f);
     };
+    add(fam_primed(US, 3, "w12", &ORD_ONE));
+    add(fam_primed(DS, 3, "u", &ORD_ONE));
+    for f in route_small("w12", true).into_iter().chain(hist_small("w12", false)) {
+        add(f);
+    }
+    add(fam(US, 3, "wtiny", &ORD_ONE));
+    add(fam(US, 3, "whuge", &ORD_ONE));
+    add(fam(DS, 3, "whuge", &ORD_ONE));
+    add(fam(US, 4, "whuge", &ORD_ONE));
     if tier == "quick" {
         for k in kinds_all() {
             add(fam(k, 2, "u", &ORD_ONE));
@@ -354,6 +381,27 @@ pub fn medium_inputs(tier: &str) -> Vec<Built> {
                             let ew: Vec<(usize, usize, f64)> = es.iter().map(|e| (e.0, e.1, (1 + (e.0 * 3 + e.1) % 3) as f64)).collect();
                             v.push(build_custom(if directed { ds } else { us }, n, &ew, &format!("gnpw:{n}:{p}:{}:{s}", directed as u8)));
                         }
+
+                    }
+                }
+            }
+        }
+    }
+    // nearly equal weights (1, 1+eps, 1+2eps): every sum of three of them rounds, so gains that are equal in
+    // exact arithmetic differ in the last bits and the running community totals drift
+    let ulp_seeds: u64 = if tier == "quick" { 12 } else { 60 };
+    for &n in &[5usize, 6, 8, 10] {
+        for &p in &[0.5, 0.8] {
+            for s in 0..ulp_seeds {
+                for directed in [true, false] {
+                    if let Ok(g) = graphrs::generators::random::fast_gnp_random_graph(n as i32, p, directed, Some(s)) {
+                        let mut es: Vec<(usize, usize)> = g.get_all_edges().iter().map(|e| (e.u as usize, e.v as usize)).collect();
+                        es.sort();
+                        if es.is_empty() {
+                            continue;
+                        }
+                        let eu: Vec<(usize, usize, f64)> = es.iter().map(|e| (e.0, e.1, 1.0 + f64::EPSILON * ((e.0 * 3 + e.1) % 3) as f64)).collect();
+                        v.push(build_custom(if directed { ds } else { us }, n, &eu, &format!("gnpulp:{n}:{p}:{}:{s}", directed as u8)));
                     }
                 }
             }
